@@ -12,7 +12,7 @@ from __future__ import annotations
 import ast
 from fractions import Fraction
 
-from .forms import (Const, DictV, Form, SliceV, TupleV, as_form, fpow, mk_attr, mk_fn, mk_idx,
+from .forms import (Const, DictV, Form, SliceV, TupleV, as_form, canon_call, fpow, mk_attr, mk_fn, mk_idx,
                     vkey, F0, F1)
 from .srcmodel import PKG, AnalysisError, FuncInfo, Package, src_of
 
@@ -1073,7 +1073,11 @@ class Interp:
         m = getattr(self, "e_" + type(node).__name__, None)
         if m is None:
             return Form.atom(("opaque", src_of(node)))
-        return m(node, st, fi, depth)
+        v = m(node, st, fi, depth)
+        if isinstance(node, (ast.Name, ast.Attribute)) and isinstance(v, Form) and isinstance(getattr(node, "ctx", None), ast.Load) \
+                and st.facts.none.get(v.key()) is True:
+            return NONE  # a value known to be None on this path is None wherever it flows (`noise = other.noise`)
+        return v
 
     def e_Constant(self, n, st, fi, depth):
         v = n.value
@@ -1412,6 +1416,8 @@ class Interp:
                 return base.items[i]
         if isinstance(base, ClassRef) or (isinstance(base, Form) and base.single_atom() and base.single_atom()[0] == "c" and base.single_atom()[1].startswith("typing.")):
             return base
+        if isinstance(base, Form) and base.single_atom() in (("c", "numpy.s_"), ("c", "numpy.index_exp")):
+            return idx  # np.s_[...] is the index expression itself
         if isinstance(base, Form) and isinstance(idx, Form) and idx.rational() is not None:
             ev = elementwise_items(base, None)
             if ev is not None:
@@ -1577,6 +1583,12 @@ class Interp:
                 short = name
         if short == "log10" and len(args) == 1 and isinstance(args[0], Form):
             return mk_fn("log10", [args[0]])
+        if name.startswith(("numpy.", "scipy.")):
+            last, cargs, ckw = canon_call(name.rsplit(".", 1)[1], args, kwargs)
+            if (cargs, ckw) != (args, kwargs) or last != name.rsplit(".", 1)[1]:
+                if last != name.rsplit(".", 1)[1]:
+                    short = name.rsplit(".", 1)[0] + "." + last if short == name else last
+                args, kwargs = cargs, ckw
         return mk_fn(short, [as_value(a) for a in args], [(k, as_value(v)) for k, v in kwargs.items()])
 
     def _call_value(self, fv, args, kwargs, st, fi, depth, n, rec):
@@ -1593,6 +1605,10 @@ class Interp:
                 return r
         if isinstance(fv, Form):
             a = fv.single_atom()
+            if a is not None and a[0] == "c" and isinstance(a[1], str) and "." in a[1] and not a[1].startswith("scipy.constants."):
+                # a library function held in a local (`transform = np.fft.fft; transform(x)`)
+                rec.callee = a[1]
+                return self._dispatch_call(n, a[1], args, kwargs, st, fi, depth, rec)
             # self.__class__(...) / self.type()(...) / type(self)(...)
             cls = self._dynamic_class_of(fv)
             if cls is not None:
@@ -1817,7 +1833,8 @@ class Interp:
             if attr in _IDENTITY_METHODS:
                 return base
             if attr in _ARRAY_METHODS_AS_FN:
-                return mk_fn(_ARRAY_METHODS_AS_FN[attr], [base] + [as_value(a) for a in args], [(k, as_value(v)) for k, v in kwargs.items()])
+                _, cargs, ckw = canon_call(_ARRAY_METHODS_AS_FN[attr], [base] + list(args), kwargs)
+                return mk_fn(_ARRAY_METHODS_AS_FN[attr], [as_value(a) for a in cargs], [(k, as_value(v)) for k, v in ckw.items()])
             a = base.single_atom()
             if a is not None and a[0] == "c":
                 # module-level object from a library: warnings.warn(...), plt.plot(...)
@@ -1879,6 +1896,13 @@ class Interp:
             return mk_fn("round", [as_value(a) for a in args])
         if name == "print":
             return NONE
+        if name == "slice" and 1 <= len(args) <= 3 and not kwargs:
+            a = list(args)
+            if len(a) == 1:
+                a = [NONE, a[0], NONE]
+            elif len(a) == 2:
+                a = a + [NONE]
+            return SliceV(*a)
         return None
 
 
@@ -1911,7 +1935,7 @@ _ELEMENTWISE = {"sqrt", "abs", "absolute", "exp", "log", "log10", "log2", "cos",
 _BUILTIN_TYPES = {"int", "float", "complex", "str", "bool", "list", "tuple", "dict", "set", "bytes", "object", "type",
                   "Exception", "ValueError", "TypeError"}
 _BUILTINS = {"len", "int", "isinstance", "type", "getattr", "super", "str", "min", "max", "list", "tuple", "zip", "range",
-             "abs", "round", "print", "callable", "float", "sum", "map", "dir", "setattr", "delattr", "hasattr", "id"}
+             "abs", "round", "print", "callable", "float", "sum", "map", "dir", "setattr", "delattr", "hasattr", "id", "slice"}
 _INLINE_METHODS = {"len", "fs", "sps", "dt", "w", "t", "abs", "power", "type", "copy", "__getitem__", "__call__", "__mul__",
                    "__rmul__", "__add__", "__radd__", "__sub__", "__rsub__", "ones", "zeros", "__len__"}
 
